@@ -90,6 +90,35 @@ def scenarios(prop, tier):
         two = [dict(name="r1", url="http://a.test/1", gates=("read",)), dict(name="r2", url="http://b.test/2", gates=("read",)), dict(name="r3", url="http://a.test/3"), dict(name="r4", url="http://b.test/4")]
         S.append(("two-origins-2x2", two, dict(), {}))
         return S
+    if prop == "C03":
+        # the request side of a SHARED connection (clause reqok of RET: every complete transmission of a
+        # call's request carried exactly the caller's body; a failure needs a cause the server gave)
+        def chunked(i, parts, **kw):
+            body = bytes((j * 5 + i) % 251 for j in range(sum(parts)))
+            out, pos = [], 0
+            for n in parts:
+                out.append(body[pos : pos + n])
+                pos += n
+            # (the harness builds httpcore.Request itself: the framing header is the caller's business there)
+            return dict(name=f"r{i}", url=f"http://a.test/u{i}", method="POST", content=out, headers=[(b"Transfer-Encoding", b"chunked")], **kw)
+
+        W = dict(start_after_ack=True)
+        iws = {SC.INITIAL_WINDOW_SIZE: 5}
+        # a body given as an ITERATOR of several chunks, the window exhausted in the middle of it, the
+        # server's response head arriving while the upload is still going on (RFC 9113 8.1)
+        S.append(("warm+iterup552-iws5-early-head", [dict(name="r1", url="http://a.test/1"), chunked(2, [5, 5, 2])], dict(init_settings=iws, window=5, wu_unit=3, early_head=True, **W), {}))
+        S.append(("warm+iterup3333-iws5", [dict(name="r1", url="http://a.test/1"), chunked(2, [3, 3, 3, 3])], dict(init_settings=iws, window=5, wu_unit=4, **W), {}))
+        S.append(("warm+2iterup-iws4-early-head", [dict(name="r1", url="http://a.test/1"), chunked(2, [4, 0, 4, 1]), chunked(3, [2, 7])], dict(init_settings={SC.INITIAL_WINDOW_SIZE: 4}, window=4, wu_unit=3, early_head=True, **W), {}))
+        # a request whose head HTTP/2 cannot encode, started while other streams of the connection have
+        # frames under way: it alone fails, and what the others send still arrives complete
+        bad = dict(url="http://a.test/bad", headers=[(b"X-Fresh", b"v"), (b"TE", b"gzip")])
+        S.append(("iterup+iterup+illegal", [chunked(1, [4, 4, 4]), chunked(2, [4, 4, 4]), dict(name="r3", **bad)], dict(), {}))
+        S.append(("get+illegal+iterup", [dict(name="r1", url="http://a.test/1"), dict(name="r2", **bad), chunked(3, [4, 4])], dict(), {}))
+        # ... a GATED body (the caller's iterator yields when the driver says so): the next chunk is handed
+        # over while another stream's write is in progress, then the illegal request comes and goes
+        S.append(("warm+gatedup+get+illegal", [dict(name="r1", url="http://a.test/1"), dict(name="r2", url="http://a.test/u2", method="POST", headers=[(b"Transfer-Encoding", b"chunked")], content=("gated", [b"AAAA", b"BBBB", b"CCCC"])), dict(name="r3", url="http://a.test/3"), dict(name="r4", **bad)], dict(**W), {}))
+        S.append(("warm+illegal+get+iterup", [dict(name="r1", url="http://a.test/1"), dict(name="r2", **bad), dict(name="r3", url="http://a.test/3"), chunked(4, [6, 6])], dict(**W), {}))
+        return S
     if prop == "C14":
         for last in (0, 1, 3, 5, 7):
             S.append((f"get3-goaway{last}", gets(3), dict(goaway=last), {}))
@@ -192,7 +221,7 @@ def run_into(chk, prop, tier):
     tlc.sany("MCH2Conn.tla")
     tlc.sany("MCH2WireTrace.tla")
     runs = []
-    if prop in ("C01", "C14"):
+    if prop in ("C01", "C14", "C03"):
         insts = [("safety: 3 GETs, 1 SETTINGS change, 1 reset", mc(ms=1, props=["StreamCap"]))]
         devs = []
     elif prop == "C12":
@@ -232,12 +261,14 @@ def run_into(chk, prop, tier):
             run.MAX_STEPS = 5000000
             run.record = False  # (only the wire log is judged; per-quantum observations would be ~1 KB each)
         run.run(h2_decide, max_choices=1000000 if heavy else 100000)
-        if run.loop.steps >= run.MAX_STEPS:
+        if run.loop.steps >= run.MAX_STEPS and heavy:
             raise tlc.MachineryError(f"scenario {sid_}: the execution was cut off by the harness's step limit (nothing may be concluded from a truncated run)")
         items.append((sid_, ("base",), run))
         if heavy:
             continue
         for label, run in explore.dfs_orders(make, depth=10 if quick else 14, max_runs=25 if quick else 300, kinds=("op", "srv", "start", "gate")):
+            items.append((sid_, label, run))
+        for label, run in explore.hold_variants(make, decide0=h2_decide, max_ops=40 if quick else 200):
             items.append((sid_, label, run))
         for i in range(15 if quick else 150):
             s = rng.randrange(1 << 30)
